@@ -123,6 +123,23 @@ Theorem C07_major_version_least : forall d us,
   forall v', etp_codable d v' us -> val_version_ok d v' us -> v <= v'.
 Proof. exact major_version_least. Qed.
 
+(* whole pipeline: the numbers found in the serialised description of sequence i are exactly those assigned
+   by the numbering pass (the later passes leave parse codes and numbers alone) ... *)
+Theorem C07_picnum_final : forall d start s i us,
+  nth_error s i = Some us ->
+  exists us', nth_error (autofill_stream d start s) i = Some us' /\
+    Forall2 (fun a b => pn_kind b = pn_kind a /\ number_of b = number_of a) (pn_seq d 4294967295 us) us'.
+Proof. exact picnum_final. Qed.
+
+(* ... and every automatic major_version of sequence i is the maximum over the features of THAT sequence *)
+Theorem C07_major_version_final : forall d start s i us,
+  nth_error s i = Some us ->
+  exists us', nth_error (autofill_stream d start s) i = Some us' /\
+    Forall2 (fun u u' => (eff_parse_code d u =? PC_SEQUENCE_HEADER) = true ->
+                         mv_is_auto d (sh_major_version (u_sh u)) = true ->
+                         sh_major_version (u_sh u') = Explicit (seq_version d us)) us us'.
+Proof. exact major_version_final. Qed.
+
 (* ---- non-vacuity -------------------------------------------------------------------------------- *)
 Definition ex_d : defaults :=
   mk_defaults 16 None 3 (false, 3) (false, 1) (false, 3) (false, 0) (false, 0) (false, 0) 0 4 false 4 false 0 0 0.
